@@ -98,3 +98,10 @@ CHECKS["C14"] = {
         _sub("TestC14_Faults", 500, 25000, sq=16, st=16),
     ],
 }
+
+CHECKS["C05"] = {
+    "level": "exploration",
+    "subs": [
+        _sub("TestC05_Txn", 2500, 80000, sq=16, st=16),
+    ],
+}
